@@ -93,7 +93,7 @@ def main():
     man = dict(version=1,
         setup_cmd="cd /verif && /venv/bin/python -m compileall -q vf >/dev/null; mkdir -p evidence replays; true",
         hooks=dict(guard="EXO_VERIF", enable="checks export EXO_VERIF=1; no source hooks are currently needed (instrumentation is done by wrapping from /verif)",
-                   baseline_off_cmd="PATH=/venv/bin:$PATH " + BASE["cmd"].replace("--junitxml=<file>", "--junitxml=/tmp/exo_baseline.junit.xml").replace("cd /repo &&", "cd /repo && env -u EXO_VERIF"), source_commits=[], add_only=True),
+                   baseline_off_cmd=BASE["cmd"].replace("--junitxml=<file>", "--junitxml=/tmp/exo_baseline.junit.xml").replace("cd /repo &&", "cd /repo && env -u EXO_VERIF PATH=/venv/bin:$PATH"), source_commits=[], add_only=True),
         engines=[dict(name="vf", path="/verif/vf", serves_properties=sorted(CHECKS),
                       kind_free_text="hand-written explicit-state / bounded-exhaustive explorer in Python driving the real exo implementation, with independent reference models (LoopIR interpreter over a polynomial normal form, graph closure, brute-force integer evaluation, gcc+sanitizers)")],
         checks=[CHECKS[k] for k in sorted(CHECKS)],
